@@ -46,7 +46,7 @@ META = {
     "permutation, so the order obligations are proved for every hash seed.",
     "bounds": ["labellers: the 33 exported index-based labellers, D=2 (D=3 for the 3-D face labeller; D=3 for all in "
                "the thorough tier), coordinates boxed to [-8,8], input size a symbolic integer in [0,100000]",
-               "selection: 2-4 points, 3 labels (names 'zeta','alpha','mid'), edge sets from a fixed list (all 8 for 3 "
+               "selection: 2-4 points, 3 labels (names 'left_eye','alpha','eye' (one a substring of another)), edge sets from a fixed list (all 8 for 3 "
                "points in the thorough tier)", "hash-seed replay searches PYTHONHASHSEED 1..24"],
     "stubs": ["builtin set (module global of menpo.shape.labelled) -> set subclass whose iteration order is a forked "
               "permutation", "stand-in PointCloud with symbolic n_points (size harness)"],
@@ -82,7 +82,7 @@ BBOX = ["bounding_box_mirrored_to_bounding_box", "bounding_box_to_bounding_box"]
 DIMS3 = {"face_bu3dfe_83_to_face_bu3dfe_83"}
 KINDS = ["array", "pointcloud", "lgraph"]
 
-LABELS = ["zeta", "alpha", "mid"]  # original order is deliberately not the sorted order
+LABELS = ["left_eye", "alpha", "eye"]  # original order is not the sorted order; one name is a substring of another
 NEW_LABEL = "beta"
 EDGESETS = {
     2: [[], [[0, 1]]],
